@@ -207,11 +207,9 @@ theorem ptrepr_remove (s : PathTState) (L : List Route) (id : String) (h : PTRep
   | none =>
     rw [PathT.remove_of_none id s hr]
     have hr' : (entryRemove id (entriesOf s.tree)).2 = none := by rw [← hpairs.2]; exact hr
-    have hsame : (s.tree.remove id).1.contents = s.tree.contents := by
-      rw [(contents_remove s.tree id).1]
-      have : refRemoved s.tree.contents id = none := by rw [← (contents_remove s.tree id).2]; exact hr
-      exact refRemove_of_none this
-    refine ⟨?_, h.inv, h.dom, h.tree.filterIds id hU hr', hs⟩
+    have ht' := erepr_remove (dynKey T) (entriesOf s.tree) L id h.tree hU
+    rw [entryRemove_fst_of_none id _ hr'] at ht'
+    refine ⟨?_, h.inv, h.dom, ht', hs⟩
     cases hr2 : (entryRemove id s.statics).2 with
     | none => simp only [Option.isSome_none, Bool.false_eq_true, if_false]; omega
     | some r =>
